@@ -22,7 +22,7 @@ from lerax.callback.logging import LoggingCallback
 from lerax.callback.logging.backend import AbstractLoggingBackend
 from lerax.callback.logging.callback import LoggingCallbackStepState
 from vlib import mdp, onpolicy
-from vlib.doubles import StashCallback, TableQPolicy
+from vlib.doubles import RecordingBackend, StashCallback, TableQPolicy
 from vlib.runner import Ctx
 
 
@@ -115,34 +115,6 @@ class AccMachine(RuleBasedStateMachine):
 
 
 # ----------------------------------------------------------------------------- (b) end-to-end logging
-class RecordingBackend(AbstractLoggingBackend):
-    records: list = eqx.field(static=True)
-
-    def __init__(self):
-        self.records = []
-
-    def __hash__(self):
-        return id(self)
-
-    def __eq__(self, other):
-        return self is other
-
-    def open(self, name):
-        pass
-
-    def log_hparams(self, hparams):
-        self.records.append(("hparams", dict(hparams)))
-
-    def log_scalars(self, scalars, step):
-        self.records.append(("scalars", {k: float(np.asarray(v)) for k, v in scalars.items()}, int(np.asarray(step))))
-
-    def log_video(self, tag, frames, step, fps):
-        pass
-
-    def close(self):
-        pass
-
-
 @functools.lru_cache(maxsize=None)
 def _logger(alpha_key: str):
     be = RecordingBackend()
